@@ -69,6 +69,7 @@ TrPeerSend == IsEvent("PeerSend") /\ PeerSend(Ev.frames, Ev.n)
 TrArrive   == IsEvent("Arrive") /\ Arrive(Ev.n)
 TrPeerFin  == IsEvent("PeerFin") /\ PeerFin
 TrPeerReset == IsEvent("PeerReset") /\ PeerReset
+TrPeerDeaf == IsEvent("PeerDeaf") /\ PeerDeaf
 TrUserPut  == IsEvent("UserPut") /\ UserPut(Ev.item)
 Idle       == out' = NoOut /\ UNCHANGED <<isReq, st, sock, stream, transit, rx, raw, peerFin, wdead, nid, evq, slot, uq, gen, artim, dec, user, ended>>
 TrTick     == IsEvent("Tick") /\ (IF artim = "run" THEN Tick ELSE Idle)
@@ -79,7 +80,7 @@ Home == st = 1 /\ sock = "none" /\ user # "assoc" /\ artim = "off" /\ evq = <<>>
 TrEnd == IsEvent("End") /\ (Ev.home => Home) /\ Idle
 
 TraceNext ==
-  /\ (TrEnd \/ TrIter \/ TrPeerSend \/ TrArrive \/ TrPeerFin \/ TrPeerReset \/ TrUserPut \/ TrTick \/ TrTock)
+  /\ (TrEnd \/ TrIter \/ TrPeerSend \/ TrArrive \/ TrPeerFin \/ TrPeerReset \/ TrPeerDeaf \/ TrUserPut \/ TrTick \/ TrTock)
   /\ l' = l + 1 /\ tid' = tid
   /\ bad' = (IF bad # "" THEN bad ELSE StepInv)
   /\ IF TLCGet(tid).reached < l
